@@ -187,6 +187,7 @@ impl Exec {
 
     pub fn exec(&mut self, out: &mut Out, t: u64, e: &Ev) {
         // model term (measured on the probe before the real call)
+        let mut probe_step_failed = false;
         let term: Option<String> = match e {
             Ev::Swap { .. } | Ev::Loan { .. } => None,
             Ev::Fee { asset, amount } => Some(format!("PCollect true [({}, {})]", asset, amount)),
@@ -210,6 +211,7 @@ impl Exec {
                 let b2 = cbal(&p);
                 let (_a1, v1) = probe_aggregate(&mut p, t, true);
                 let (_a2, v2) = probe_aggregate(&mut p, t, false);
+                probe_step_failed = !(ok1 && ok2) || v1.iter().chain(v2.iter()).any(|(_, s)| s == "HopFails");
                 Some(format!("PNewEpoch (mkFeeds {} {} {} {} {})", coqbool(ok1 && ok2), transfers_term(&b0, &b1), transfers_term(&b1, &b2), assets_term(&v1), assets_term(&v2)))
             }
         };
@@ -232,6 +234,10 @@ impl Exec {
             }
         }
         if !ok && after != before { out.monitor_fail("C10", "a rejected call changed a balance, the configuration or an epoch", replay.clone()); }
+        // a failed step aborts everything: when collecting or aggregating on its own fails in this very state, NewEpoch must fail too
+        if ok && probe_step_failed && matches!(e, Ev::NewEpoch { .. }) {
+            out.monitor_fail("C10", "a new epoch was created although one of its collection / aggregation steps fails in this state (a failed step must leave every balance unchanged)", replay.clone());
+        }
         match e {
             Ev::ForwardDirect { .. } => { if ok { out.monitor_fail("C10", "ForwardFees was accepted from an address that is not the fee distributor", replay.clone()); } }
             Ev::Aggregate { .. } | Ev::Collect { .. } if ok => {
